@@ -72,7 +72,7 @@ def strip_attrs_and_vis(text):
 
 def find_closure(src_body, msk_body, name, where):
     """locate `let [mut] NAME = |params| -> T { body };` : returns (start of `let`, open brace, close brace, end incl. `;`)"""
-    hits = list(re.finditer(r"\blet\s+(?:mut\s+)?" + re.escape(name) + r"\s*=\s*\|[^|;{}]*\|\s*->\s*[^{;]+?\s*\{", msk_body))
+    hits = list(re.finditer(r"\blet\s+(?:mut\s+)?" + re.escape(name) + r"\s*=\s*\|[^|;{}]*\|\s*(?:->\s*[^{;]+?\s*)?\{", msk_body))   # `-> T` is optional (unit-valued closures)
     if len(hits) != 1:
         raise LostAnchor(f"{where}: closure `{name}` (typed: `let [mut] {name} = |..| -> T {{`) found {len(hits)} times")
     m = hits[0]
@@ -319,7 +319,7 @@ class Extract:
         if buf:
             out.append(Line(buf, "repo", self.file, cur_line, fnname))
         # impl wrapper (a lifted arm is a free function)
-        if self.impl and not self.arm and not self.closurefn:
+        if self.impl and not self.arm and not self.closurefn and not self.impl.startswith("trait "):   # a trait's default method is emitted as a free function (its signature is replaced)
             ty = self.impl.split(" for ")[-1].strip()
             out.insert(0, Line(f"impl {ty} {{", "repo", self.file, line_of(src, loc["impl_range"][0]), fnname))
             out.append(Line("}", "repo", self.file, line_of(src, loc["impl_range"][2]), fnname))
